@@ -548,6 +548,8 @@ impl<'a, DB: DatabaseRef> ParallelStateView<'a, DB> {
             return Ok(account.account.clone());
         }
         let info = self.with_metrics(|| self.database.basic_ref(address))?;
+        #[cfg(feature = "verif-hooks")]
+        crate::verif::rt::pt1("cache_fill_basic", crate::verif::rt::fnv(address.as_slice()));
         let account = match info {
             None => CacheAccountInfo::new(None, AccountStatus::LoadedNotExisting),
             Some(acc) if acc.is_empty() => CacheAccountInfo::new(
